@@ -130,9 +130,25 @@ def run(ctx):
            "if length > self._max_cell_length:" in t and "self._max_cell_length = length" in t,
            "the maximal cell length bounds the unchecked writes and must follow every insertion", ci.lineno)
     # loop bounds of the visit use the per-query radius, which is <= the maximum
-    ft = ast.unparse(fa)
-    ctx.ob("R2.visit-range", CL, "CellList._find_adjacent_atoms", "range(i - cell_r, i + cell_r + 1) on all three axes",
-           all(f"range({v} - cell_r, {v} + cell_r + 1)" in ft for v in "ijk") and "cell_r = cell_radius[pos_i]" in ft,
+    # on each axis the loop runs over [c - r, c + r], possibly clipped to the grid [0, shape) by max/min in the range itself
+    def _parts(e, fname):
+        if isinstance(e, ast.Call) and isinstance(e.func, ast.Name) and e.func.id == fname and not e.keywords and len(e.args) >= 2:
+            return [p_ for a in e.args for p_ in _parts(a, fname)]
+        return [e]
+    axes_ok = []
+    for d, (c_, v_) in enumerate((("i", "adj_i"), ("j", "adj_j"), ("k", "adj_k"))):
+        lps = [lp for lp in walk_local(fa) if isinstance(lp, ast.For) and isinstance(lp.target, ast.Name) and lp.target.id == v_
+               and isinstance(lp.iter, ast.Call) and call_name(lp.iter) == "range" and len(lp.iter.args) == 2]
+        ok_d = False
+        if len(lps) == 1:
+            lo, hi = (_parts(lps[0].iter.args[0], "max"), _parts(lps[0].iter.args[1], "min"))
+            ok_d = any(same_expr(x, f"{c_} - cell_r") for x in lo) and all(same_expr(x, f"{c_} - cell_r") or same_expr(x, "0") for x in lo) \
+                and any(same_expr(x, f"{c_} + cell_r + 1") for x in hi) \
+                and all(same_expr(x, f"{c_} + cell_r + 1") or any(same_expr(x, f"{cv}.shape[{d}]") for cv in sorted(cell_views)) for x in hi)
+        axes_ok.append(ok_d)
+    cr = [st for st in walk_local(fa) if isinstance(st, ast.Assign) and same_expr(st.targets[0], "cell_r")]
+    ctx.ob("R2.visit-range", CL, "CellList._find_adjacent_atoms", "range(c - cell_r, c + cell_r + 1) on all three axes (clipping to the grid allowed)",
+           all(axes_ok) and len(cr) == 1 and same_expr(cr[0].value, "cell_radius[pos_i]"),
            "the visited cube must be symmetric around the query cell with the query's own radius", fa.lineno)
 
     # ---------------- R3 post processing ------------------------------------------
@@ -155,10 +171,14 @@ def run(ctx):
            and "if index == -1:" in ast.unparse(am),
            "the mask has one column per original atom and stops at the -1 padding", am.lineno)
     pv = s.func("_prepare_vectorization")
-    pt = ast.unparse(pv)
-    ctx.ob("R3.radius-shape", CL, "_prepare_vectorization", "radius.shape[0] != coord.shape[0] -> raise; negative -> raise",
-           "radius.shape[0] != coord.shape[0]" in pt and "(radius < 0).any()" in pt and "if radius < 0:" in pt,
-           "per-query radii must match the number of queries and be non-negative", pv.lineno)
+    # what is known to hold at each refusal (its own test and the enclosing ones)
+    refusals = [facts.facts_at(pv, r) | {c_ for st in ast.walk(pv) if isinstance(st, ast.If) and any(b is r for b in st.body)
+                                         for c_ in facts.facts_at(pv, st.body[0])}
+                for r in ast.walk(pv) if isinstance(r, ast.Raise)]
+    need = ["radius.shape[0] != coord.shape[0]", "(radius < 0).any()", "radius < 0"]
+    miss = [n_ for n_ in need if not any(spec(n_) in k for k in refusals)]
+    ctx.ob("R3.radius-shape", CL, "_prepare_vectorization", "radius.shape[0] != coord.shape[0] -> raise; negative -> raise", not miss,
+           "per-query radii must match the number of queries and be non-negative" + (f" (no refusal under `{miss[0]}`)" if miss else ""), pv.lineno)
 
     query_rules(ctx, s)
 
@@ -193,18 +213,16 @@ def query_rules(ctx, s):
            "the threshold compared with the squared distance is the square of the query's radius", ga.lineno)
     # ---- periodic lists: each public query wraps ITS coordinates into the box first, so that the cell search and the distance
     # measurement see the same point
-    for q in ("CellList.get_atoms", "CellList.get_atoms_in_cells"):
+    from ..exprnorm import local_value as _lv
+    for q, rdt in (("CellList.get_atoms", "np.float32"), ("CellList.get_atoms_in_cells", "np.int32")):
         f = s.func(q)
-        cpar = param_names(f)[1]
-        wraps = [k for k, st in enumerate(f.body) if isinstance(st, ast.If) and same_expr(st.test, "self._periodic") and not st.orelse
-                 and len(st.body) == 1 and isinstance(st.body[0], ast.Assign) and same_expr(st.body[0].targets[0], cpar)
-                 and same_expr(st.body[0].value, f"move_inside_box({cpar}, self._box)")]
-        first_use = min([k for k, st in enumerate(f.body) if any(isinstance(x, ast.Name) and x.id == cpar and isinstance(x.ctx, ast.Load) for x in ast.walk(st))
-                         and not (isinstance(st, ast.If) and st.body and isinstance(st.body[-1], ast.Return))] or [10 ** 6])
-        ctx.ob("R4.periodic-query-wrapped", CL, q, f"if self._periodic: {cpar} = move_inside_box({cpar}, self._box) before any other use",
-               len(wraps) == 1 and wraps[0] <= first_use,
-               "with periodicity the query point is moved into the box in the public method itself: the cell search and the distance filter "
-               "must work on the same (wrapped) coordinates", f.lineno)
+        cpar, rpar = param_names(f)[1], param_names(f)[2]
+        cv = _lv(f, cpar)
+        # the coordinates everything below works with: the vectorised form of the WRAPPED query (if periodic), whichever way it is written
+        ok_w = cv is not None and same_expr(cv, f"__item__(_prepare_vectorization(move_inside_box({cpar}, self._box) if self._periodic else {cpar}, {rpar}, {rdt}), 0)")
+        ctx.ob("R4.periodic-query-wrapped", CL, q, f"{cpar} = _prepare_vectorization(move_inside_box({cpar}, self._box) if self._periodic else {cpar}, ..)[0]", ok_w,
+               "with periodicity the query point is moved into the box in the public method itself, before it is vectorised: the cell search "
+               "and the distance filter must work on the same (wrapped) coordinates; the code computes " + (ast.unparse(cv)[:150] if cv is not None else "nothing"), f.lineno)
     # ---- candidate buffer: sized by the largest radius of the call, never capped
     gc = s.func("CellList._get_atoms_in_cells")
     check_spec(ctx, "R4.candidate-buffer", CL, "CellList._get_atoms_in_cells",
